@@ -5,7 +5,7 @@
    their meaning, one of these proofs fails. *)
 From Coq Require Import NArith List Bool Lia.
 From AV Require Import Generated.Table Spec.Io Model.Base Model.Imp Model.Utf8parse Model.Parser Model.Strip
-  Model.Stream Proofs.StripMachine Generated.StreamFn.
+  Model.Stream Proofs.StripMachine Generated.FmtFn Proofs.FmtGen Generated.StreamFn.
 Import ListNotations.
 Local Open Scope N_scope.
 
@@ -128,7 +128,10 @@ Qed.
 (* ---- fn write_fmt ---------------------------------------------------------------------- *)
 Lemma g_write_fmt_eq raw s frags : conv_u (g_write_fmt raw s frags) = ss_write_fmt s frags raw.
 Proof.
-  unfold g_write_fmt. revert raw s.
+  unfold g_write_fmt. cbv zeta.
+  (* Adapter::new(closure).write_fmt(args), TRANSLATED (Generated/FmtFn.v), is the hand model's fmt_adapter_write_fmt *)
+  rewrite (adapter_run _ _ (fun st r => let '(raw3, state3) := st in Some (raw3, state3, r))).
+  revert raw s.
   induction frags as [|fr rest IH]; intros raw s; cbn [fmt_adapter_write_fmt ss_write_fmt]; [reflexivity|].
   rewrite <- g_write_all_eq.
   destruct (g_write_all raw s fr) as [[[w1 s1] r]|]; cbn [conv_u]; [|reflexivity].
@@ -165,14 +168,27 @@ Lemma g_ss_flush_eq x :
   conv_ss sres_of_unit (Some (g_ss_flush x)) = ss_op (ss_state x) (ss_raw x) OFlush.
 Proof. reflexivity. Qed.
 
+(* ---- write_vectored: `bufs.iter().find(|b| !b.is_empty()).map(|b| &**b).unwrap_or(&[][..])`, TRANSLATED, is the hand
+   model's first_nonempty (whatever the closures are called; a changed predicate / default breaks this) ---------- *)
+Lemma find_nonempty_is_first_nonempty (bufs : list (list N)) :
+  opt_unwrap_or (option_map (fun b => b) (find (fun b => negb (is_empty b)) bufs)) [] = first_nonempty bufs.
+Proof.
+  induction bufs as [|b rest IH]; [reflexivity|].
+  destruct b as [|c b]; cbn [find is_empty negb first_nonempty]; [exact IH|reflexivity].
+Qed.
+
+Lemma g_ss_write_vectored_first x bufs : g_ss_write_vectored x bufs = g_ss_write x (first_nonempty bufs).
+Proof.
+  unfold g_ss_write_vectored. cbv zeta. rewrite find_nonempty_is_first_nonempty.
+  destruct (g_ss_write x (first_nonempty bufs)) as [[x1 r]|]; reflexivity.
+Qed.
+
 (* ---- the entry point: one operation of the stream, and whole operation sequences ---------- *)
-(* write_vectored is hand-modelled (token-pinned): the first non-empty buffer, then the
-   TRANSLATED write *)
 Definition g_ss_op (x : sstream) (o : sop) : option (sstream * sres) :=
   match o with
   | OWrite buf => '(x1, r) <- g_ss_write x buf ;; Some (x1, sres_of_n r)
   | OWriteAll buf => '(x1, r) <- g_ss_write_all x buf ;; Some (x1, sres_of_unit r)
-  | OWriteVectored bufs => '(x1, r) <- g_ss_write x (first_nonempty bufs) ;; Some (x1, sres_of_n r)
+  | OWriteVectored bufs => '(x1, r) <- g_ss_write_vectored x bufs ;; Some (x1, sres_of_n r)
   | OWriteFmt frags => '(x1, r) <- g_ss_write_fmt x frags ;; Some (x1, sres_of_unit r)
   | OFlush => let '(x1, r) := g_ss_flush x in Some (x1, sres_of_unit r)
   end.
@@ -193,7 +209,8 @@ Proof.
   destruct o as [buf|buf|bufs|frags|]; cbn [g_ss_op].
   - rewrite <- g_ss_write_eq. destruct (g_ss_write x buf) as [[? ?]|]; reflexivity.
   - rewrite <- g_ss_write_all_eq. destruct (g_ss_write_all x buf) as [[? ?]|]; reflexivity.
-  - cbn [ss_op]. change (ss_write (ss_state x) (first_nonempty bufs) (ss_raw x))
+  - rewrite g_ss_write_vectored_first.
+    cbn [ss_op]. change (ss_write (ss_state x) (first_nonempty bufs) (ss_raw x))
       with (ss_op (ss_state x) (ss_raw x) (OWrite (first_nonempty bufs))).
     rewrite <- g_ss_write_eq. destruct (g_ss_write x (first_nonempty bufs)) as [[? ?]|]; reflexivity.
   - rewrite <- g_ss_write_fmt_eq. destruct (g_ss_write_fmt x frags) as [[? ?]|]; reflexivity.
